@@ -9,6 +9,8 @@ CONSTANTS
   Recheck = TRUE
   Post = "forget"
   Record = "always"
+  Breaks = TRUE
+  Blind = FALSE
   Export = FALSE
 INVARIANTS TypeOK NoHazard
 PROPERTIES NeverForEvaluated Converges LoadsFinal
